@@ -65,7 +65,13 @@ func (l *lexer) error() error {
 
 // Stop stops the lexing and closes the tokens channel.
 func (l *lexer) Stop() {
+	if verifOn {
+		verifLex(l, 1, "stop-enter", 0)
+	}
 	for range l.tokens {
+	}
+	if verifOn {
+		verifLex(l, 1, "stop-leave", 0)
 	}
 }
 
@@ -155,6 +161,9 @@ func (l *lexer) emitAtLineColumn(line, column int, typ tokenTyp, length int) {
 		ctx: ctx,
 		tag: l.tag.name,
 		att: l.tag.attr,
+	}
+	if verifOn {
+		verifLex(l, 0, "emit", int(typ))
 	}
 	if l.templateSyntax {
 		switch typ {
@@ -630,6 +639,13 @@ func (l *lexer) scan() {
 	l.text = nil
 	l.src = nil
 
+	if verifOn {
+		e := 0
+		if l.err != nil {
+			e = 1
+		}
+		verifLex(l, 0, "close", e)
+	}
 	close(l.tokens)
 }
 
